@@ -500,7 +500,7 @@ func c03Units(ctx *core.Ctx) []core.Unit {
 				}
 				return o
 			}
-			st := core.Explore(r, core.SchedSpec{Name: fmt.Sprintf("CreateMultiProof(%d openings) || CreateMultiProof(%d openings), NumCPU=2", len(ss[0].zs), len(ss[1].zs)), API: "CreateMultiProof", Check: "c03.schedule", Body: body, Expect: want, Mode: "bounded", Opt: explore.Options{MaxBound: bd, SchedOnly: true, Allow: callerSwitch, MaxExecs: 100000, Deadline: schedDeadline(ctx)}})
+			st := core.Explore(r, core.SchedSpec{Name: fmt.Sprintf("CreateMultiProof(%d openings) || CreateMultiProof(%d openings), NumCPU=2", len(ss[0].zs), len(ss[1].zs)), API: "CreateMultiProof", Check: "c03.schedule", Body: body, Expect: want, Mode: "bounded", Opt: explore.Options{MaxBound: bd, SchedOnly: true, Allow: callerSwitch, Spread: true, MaxExecs: 100000, Deadline: schedDeadline(ctx)}})
 			r.Nontrivial += int64(st.Complete)
 		}
 		// the same for the single-polynomial prover
@@ -526,7 +526,7 @@ func c03Units(ctx *core.Ctx) []core.Unit {
 			wg.Wait()
 			return "[0]" + outs[0] + "[1]" + outs[1]
 		}
-		st := core.Explore(r, core.SchedSpec{Name: "CreateIPAProof(point 300) || CreateIPAProof(point 17), NumCPU=2", API: "ipa.CreateIPAProof", Check: "c03.schedule", Body: body2, Expect: want2, Mode: "bounded", Opt: explore.Options{MaxBound: bd, SchedOnly: true, Allow: callerSwitch, MaxExecs: 100000, Deadline: schedDeadline(ctx)}})
+		st := core.Explore(r, core.SchedSpec{Name: "CreateIPAProof(point 300) || CreateIPAProof(point 17), NumCPU=2", API: "ipa.CreateIPAProof", Check: "c03.schedule", Body: body2, Expect: want2, Mode: "bounded", Opt: explore.Options{MaxBound: bd, SchedOnly: true, Allow: callerSwitch, Spread: true, MaxExecs: 100000, Deadline: schedDeadline(ctx)}})
 		r.Nontrivial += int64(st.Complete)
 	}})
 	// (d) pool answers
